@@ -37,6 +37,7 @@ func checkC16(c *Ctx) {
 		"callees do not retain pointers to the caller's locals beyond the call; aliasing between distinct SSA base objects is not modelled (effects engine E4 covers aliasing)",
 		"the GetKEKByLabelFunc / GetDeviceKeysByDevEUIFunc callbacks are pure lookups (configuration, not analysed)",
 	}
+	flowSelfTest(c)
 	c16KeyBlocks(c)
 	c16Stateless(c)
 	lists := c16Pipelines(c)
